@@ -25,6 +25,16 @@ def _load_specs():
 _CTX = dict()
 
 
+def _solve_retry(i):
+    '''second attempt for an obligation the first pass left `unknown`: alone, with
+    four times the budget (a busy machine must not flip a verdict)'''
+    _CTX['timeout'] = _CTX['timeout'] * 4
+    _CTX['retry'] = True
+    d = _solve_one(i)
+    d['retried'] = True
+    return d
+
+
 def _solve_one(i):
     res, known, reg = _CTX['res'], _CTX['known'], _CTX['reg']
     tier, dump, timeout = _CTX['tier'], _CTX['dump'], _CTX['timeout']
@@ -33,8 +43,12 @@ def _solve_one(i):
     both = dict(inputs)
     for k, v in o.at.items():
         both['at:' + k] = v
-    solve_obligation(o, timeout, dump_dir=dump, inputs=both)
+    # the first pass leaves `unknown` alone; only the retry (alone, four times the
+    # budget) may fall back to refuting the obligation by proving its negation
+    solve_obligation(o, timeout, dump_dir=dump, inputs=both,
+                     allow_refute=bool(_CTX.get('retry')))
     d = dict(name=o.name, kind=o.kind, status=o.status,
+             refuted_only=bool(getattr(o, 'refuted_only', False)),
              backend=o.backend, time_s=round(o.time_s, 4),
              line=o.lineno, note=o.note, model=o.model,
              smt2=getattr(o, 'smt2', None), variant=o.variant,
@@ -82,7 +96,9 @@ def run_unit(kind, key, tier, known, seed=0, inner=1):
         else:
             res = verify_function(reg.get(key), reg)
         timeout = 20 if tier == 'quick' else 90
-        dump = os.path.join(OUT, 'smt', _safe(res.short))
+        # one dump directory per check process: concurrent checks (several properties
+        # share units, a self-test runs other trees) must never read each other's queries
+        dump = os.path.join(OUT, 'smt', os.environ.get('VERIF_RUN_ID', 'run'), _safe(res.short))
         _CTX.update(res=res, known=known, reg=reg, tier=tier, dump=dump,
                     timeout=timeout)
         n = len(res.obls)
@@ -98,8 +114,15 @@ def run_unit(kind, key, tier, known, seed=0, inner=1):
             # check (its vacuity cover) into `unknown`
             import multiprocessing as mp
             k = min(inner, n) if (inner > 1 and n > 8) else 1
-            with mp.get_context('fork').Pool(k) as pool:
+            with mp.get_context('fork').Pool(k, maxtasksperchild=1) as pool:
                 out_obls = pool.map(_solve_one, range(n), chunksize=1)
+            again = [i for i, d in enumerate(out_obls)
+                     if d['status'] == 'unknown' and d['kind'] != 'canary']
+            if again:
+                # one at a time, each in a fresh child
+                for i in again:
+                    with mp.get_context('fork').Pool(1) as pool:
+                        out_obls[i] = pool.map(_solve_retry, [i])[0]
         else:
             out_obls = []
         return dict(kind=kind, key=key, short=res.short, status=res.status,
